@@ -295,7 +295,7 @@ def project(events, run_index=0):
             okret = e["outcome"] == "ok"
             p = dict(kind=kind, rec=bool(e["rec"]), ntc=len(tcs), outcome="ok" if okret else e["outcome"],
                      fc=e["fc_after"], nlogged=e["nlogged"],
-                     uid=uid_of(e["u"], True), uR=uR(e["u"]))
+                     uid=uid_of(e["u"], True), uR=uR(e["u"]), infilt=bool(e.get("infilt", True)))
             if tc is not None:
                 p["n"] = tc["n"]
                 p["pid"] = pid_of(tc["x"], True)
@@ -322,7 +322,7 @@ def project(events, run_index=0):
             p["dq"] = True
             if kind == "poll" and cur_step is not None and cur_step.get("dirs_ev") is not None:
                 de = cur_step["dirs_ev"]
-                off = (np.asarray(e["u"]) - de["u"]) / de["mesh_size"]
+                off = (np.asarray(e["u"]) - de["u"]) / de.get("mesh_true", de["mesh_size"])
                 dd = np.round(off)
                 p["dq"] = bool(np.all(np.abs(off - dd) <= 1e-6 * np.maximum(1.0, np.abs(dd))))
                 p["d"] = [int(v) for v in dd]
